@@ -65,8 +65,15 @@ impl FunctionDescription {
         let return_type = F::return_type();
         let trampoline_ptr = &F::TRAMPOLINE as *const _ as *const *const u8;
         let trampoline = unsafe { *trampoline_ptr };
-        let ir_function = func.ir_function();
         let pointer = func.ptr();
+
+        // The IR function keeps a pointer to the function, so it must be
+        // created from the function at its final location behind the `Arc`
+        // and not from the local `func`, which is moved by `ptr`.
+        let ir_function = (**pointer)
+            .downcast_ref::<F>()
+            .expect("ptr returns a box with the function itself")
+            .ir_function();
 
         Self {
             parameter_types,
